@@ -41,7 +41,7 @@ def any_lists(tmax, dmax, n):
 
 class Cx:
     def __init__(self, rnd):
-        self.c = store.Concretiser(rnd, scales=(1, 10, 1000))
+        self.c = store.Concretiser(rnd, scales=(1, 10, 1000, 1000, 43200000, 86400000))      # the last two: 12 h and 24 h per tick (pieces of whole days)
 
     def mk(self, lst, Event, id0, uniq=None):
         """(t, u, label) -> Event with id and data; uniq: make the data label unique per event"""
